@@ -290,6 +290,7 @@ func C10(c *run.Check) {
 			key string
 		}
 		succs := make([][]succ, len(frontier))
+		last := depth == maxDepth // no further level: successors are only counted, not kept
 		run.Parallel(len(frontier), func(i int) {
 			if c.Violations() > 0 {
 				return
@@ -312,25 +313,32 @@ func C10(c *run.Check) {
 					c.Violation(c10Replay{Events: trace, Trace: evString(trace)}, evString(trace)+": "+msg)
 					return
 				}
-				succs[i] = append(succs[i], succ{n, c10Key(n)})
+				if last {
+					succs[i] = append(succs[i], succ{nil, c10Key(n)})
+				} else {
+					succs[i] = append(succs[i], succ{n, c10Key(n)})
+				}
 			}
 		})
 		if c.Violations() > 0 {
 			break
 		}
 		var next []*c10State
-		for _, l := range succs {
+		for li, l := range succs {
 			for _, x := range l {
 				if !seen[x.key] {
 					seen[x.key] = true
-					next = append(next, x.s)
 					c.States.Add(1)
 					c.Distinct(x.key)
-					if len(x.s.evs) == 5 {
-						c.Sample(evString(x.s.evs))
+					if x.s != nil {
+						next = append(next, x.s)
+						if len(x.s.evs) == 5 {
+							c.Sample(evString(x.s.evs))
+						}
 					}
 				}
 			}
+			succs[li] = nil
 		}
 		frontier = next
 		completed = depth
